@@ -12,7 +12,13 @@ CFG_NAMES = [c['name'] for c in fsgen.CONFIGS]
 # fixed metadata) with the checksum fixed up, so that exactly one listed invariant breaks and nothing else masks it
 _PTR_CLASSES = [corrupt.CLASSES.index(c) for c in ('inode', 'inode', 'special', 'extent', 'ind', 'gd', 'xattr', 'dirent', 'dx')]
 _DIR_KINDS = [corrupt.KINDS.index(k) for k in ('out_of_range', 'out_of_range', 'inc', 'dec', 'other_block', 'meta_block', 'zero', 'ones')]
-directed = st.tuples(st.sampled_from(_PTR_CLASSES), st.integers(0, 500), st.integers(0, 200), st.sampled_from(_DIR_KINDS), st.sampled_from([5, 15, 11, 1, 21, 3, 13, 7, 9, 25]), st.just(True))
+_VALS = st.sampled_from([5, 15, 11, 1, 21, 3, 13, 7, 9, 25])
+def _ptr_idx(fields): return [i for i, f in enumerate(fields) if f[0] in corrupt.POINTER_FIELDS or f[0] in ('size', 'links', 'blocks', 'flags', 'free_blocks', 'free_inodes', 'used_dirs', 'itable_unused')]
+# for inodes and group descriptors (many fields) the field is drawn among the block-number / count fields only
+directed = st.one_of(
+    st.tuples(st.just(corrupt.CLASSES.index('inode')), st.integers(0, 500), st.sampled_from(_ptr_idx(corrupt.INO_FIELDS)), st.sampled_from(_DIR_KINDS), _VALS, st.just(True)),
+    st.tuples(st.just(corrupt.CLASSES.index('gd')), st.integers(0, 500), st.sampled_from(_ptr_idx(corrupt.GD_FIELDS)), st.sampled_from(_DIR_KINDS), _VALS, st.just(True)),
+    st.tuples(st.sampled_from(_PTR_CLASSES), st.integers(0, 500), st.integers(0, 200), st.sampled_from(_DIR_KINDS), _VALS, st.just(True)))
 
 def strategy(env):
     return st.fixed_dictionaries(dict(cfg=st.sampled_from(CFG_NAMES), recipe=st.integers(0, len(hyp.RECIPES) - 1),
